@@ -494,7 +494,11 @@ def build_func(space, sd, fd, geo=None):
         s = float(fd['s'])
         f = s * c.f
         ref = None if rv(c) is None else R.LeftScal(rv(c), s)
-        return node(f, ref, [c], lambda x: s * c.value(x))
+        region = {}
+        if c.f.is_linear and s < 0:
+            # a negative multiple of a linear functional is linear (convex)
+            region['linneg'] = 1
+        return node(f, ref, [c], lambda x: s * c.value(x), region=region)
     if cls == 'rightscal':
         c = child()
         s = float(fd['s'])
